@@ -19,6 +19,14 @@ try:
         # /repo has moved since the change was written (later fix: commits): fall back to fuzzy application and
         # keep the re-based diff
         ap = run(f"patch -p1 -F3 --no-backup-if-mismatch < {src}/patch.diff", cwd=wt)
+        if ap.returncode != 0:
+            # third attempt: three-way merge against the blobs the patch was made from (they are in /repo's history)
+            run("git checkout -- . && git clean -fdq", cwd=wt)
+            ap = run(f"git apply --3way {src}/patch.diff", cwd=wt)
+            if ap.returncode != 0 or "U " in run("git status --short", cwd=wt).stdout or "<<<<<<<" in run("git diff", cwd=wt).stdout:
+                ap.returncode = 1
+            else:
+                run("git reset -q", cwd=wt)
         if ap.returncode == 0:
             rebased = run("git diff", cwd=wt).stdout
             open(os.path.join(src, "patch.diff"), "w").write(rebased)
